@@ -71,6 +71,10 @@ pub fn check_fmt(c: &FmtCase) -> Verdict {
                     v.labels.push("beyond-padding-limit");
                     v.nontrivial = true;
                     ensure!(v, !body.contains('.'), "C16/unpadded-has-point", "{:?} should be unpadded", show(&plain));
+                    // "printed unpadded (keeping an exponent when they have one)": the unscaled digits, then e+<-scale>
+                    let digits = c.d.int.trim_start_matches('-');
+                    let want_body = if scale < 0 { format!("{}e+{}", digits, -scale) } else { digits.to_string() };
+                    ensure!(v, body == want_body, "C16/unpadded-text", "{{:.{}}} beyond the padding limit printed {:?}, expected the unpadded form {:?}", n, show(body), show(&want_body));
                     match parse_reference(plain.as_bytes()) {
                         Some((i, s)) => ensure!(v, Dec::new(i, s as i128).eq_val(&m), "C16/unpadded-value", "{:?} does not denote the exact value {}", show(&plain), m.show()),
                         None => ensure!(v, false, "C16/not-a-numeral", "{:?} is not a numeral", show(&plain)),
@@ -87,7 +91,8 @@ pub fn check_fmt(c: &FmtCase) -> Verdict {
                         Some((a, b)) => (a, Some(b)),
                         None => (body, None),
                     };
-                    let shape_ok = !ip.is_empty() && ip.bytes().all(|b| b.is_ascii_digit()) && match fp {
+                    // integer part: digits without a superfluous leading zero
+                    let shape_ok = !ip.is_empty() && ip.bytes().all(|b| b.is_ascii_digit()) && (ip == "0" || !ip.starts_with('0')) && match fp {
                         None => n == 0,
                         Some(f) => n > 0 && f.len() as i128 == n && f.bytes().all(|b| b.is_ascii_digit()),
                     };
@@ -121,7 +126,8 @@ pub fn check_fmt(c: &FmtCase) -> Verdict {
                     None => (mant, None),
                 };
                 let exp_ok = exp.len() >= 2 && (exp.starts_with('+') || exp.starts_with('-')) && exp[1..].bytes().all(|b| b.is_ascii_digit());
-                let shape_ok = ip.len() == 1 && ip.bytes().all(|b| b.is_ascii_digit()) && exp_ok && match fp {
+                // one leading digit, non-zero unless the printed value is zero (N + 1 SIGNIFICANT digits)
+                let shape_ok = ip.len() == 1 && ip.bytes().all(|b| b.is_ascii_digit()) && (ip != "0" || want.is_zero()) && exp_ok && match fp {
                     None => n == 0,
                     Some(f) => n > 0 && f.len() as i128 == n && f.bytes().all(|b| b.is_ascii_digit()),
                 };
@@ -144,6 +150,9 @@ pub fn check_fmt(c: &FmtCase) -> Verdict {
             None => ensure!(v, false, "C16/not-a-numeral", "{:?} is not a numeral", show(&plain)),
         }
     }
+    // a minus sign is printed only for a negative value (whether a negative value that rounds to zero keeps it is not
+    // fixed by the statement)
+    ensure!(v, !plain.starts_with('-') || c.d.is_neg(), "C16/minus-on-non-negative", "{:?} printed for the non-negative value {}", show(&plain), m.show());
     // ---- flags
     let (fill, align) = fill_align_of(fa);
     let flags = Flags { plus: c.plus, zero: c.zero, width: Some(c.width as usize), fill, align: align.map(|a| [Align::Left, Align::Center, Align::Right][a as usize]) };
@@ -250,6 +259,35 @@ pub fn run(ctx: &Ctx) {
         },
         check_fmt,
     );
+    {
+        // the padding limit with a precision: -scale + N in limit-1 ..= limit+2 for every scale -1100..0
+        let limit = build_cfg().padding as i64;
+        let digs = ["8", "37", "120", "0", "99999999999999999999"];
+        let total = 1101u64 * 4 * digs.len() as u64 * 2;
+        ctx.enumerated(
+            "padding-limit-boundary",
+            "fmt",
+            total,
+            true,
+            "EXHAUSTIVE: every scale -1100..0 x N = limit + scale + {-1,0,1,2} x 5 digit strings (incl. zero and trailing zeros) x both signs, {:.N}",
+            move |i| {
+                let mut k = i;
+                let neg = k % 2 == 1;
+                k /= 2;
+                let d = digs[(k % digs.len() as u64) as usize];
+                k /= digs.len() as u64;
+                let dn = (k % 4) as i64 - 1;
+                k /= 4;
+                let scale = -(k as i64);
+                let n = limit + scale + dn;
+                if n < 0 {
+                    return None;
+                }
+                Some(FmtCase { d: D::new(if neg && d != "0" { format!("-{}", d) } else { d.to_string() }, scale), kind: Kind::Disp, prec: Some(n as u32), fill_align: (i % 19) as u8, plus: i % 3 == 0, zero: i % 5 == 0, width: (i % 7) as u16 })
+            },
+            check_fmt,
+        );
+    }
     let max_len = t.pick(300usize, 300);
     ctx.generated(
         "random",
